@@ -171,6 +171,50 @@ def identities(dim, n):
     return out
 
 
+def lattice(cases):
+    """Caching.tla LatticeCases: on every axis of every class, the requested resolution gives the spec's number of cells; the area
+    is usable throughout (no point inside raises), a function linear per coordinate is reproduced, the nodes are the spec's."""
+    from cherab.core.math import Caching1D, Caching2D, Caching3D
+    out = []
+    lin = POLYS[1]
+    for dim in (1, 2, 3):
+        cls = {1: Caching1D, 2: Caching2D, 3: Caching3D}[dim]
+        for ax in range(dim):
+            for c in cases:
+                e, r, cells = c["extent"] / 4.0, c["res"] / 4.0, c["cells"]
+                x0 = (-3.0, 1.5, 40.0)
+                ext = [2.0] * dim
+                res = [1.0] * dim
+                ext[ax], res[ax] = e, r
+                f = F(lin, dim, "origin")
+                area = tuple(x for k in range(dim) for x in (x0[k], x0[k] + ext[k]))
+                tag = f"Caching{dim}D:axis{ax}:extent{c['extent']}q-resolution{c['res']}q"
+                try:
+                    cache = cls(f, area, res[0] if dim == 1 else tuple(res))
+                    ref = F(lin, dim, "origin")
+                    worst = None
+                    for t in (0.02, 0.31, 0.5, 0.77, 0.98):
+                        pt = [x0[k] + 0.43 * ext[k] for k in range(dim)]
+                        pt[ax] = x0[ax] + t * e
+                        vv, w = cache(*pt), ref(*pt)
+                        if abs(vv - w) > 1e-7 * max(1.0, abs(w)):
+                            worst = (pt, vv, w)
+                    if worst:
+                        out.append({"sig": f"{tag}:multilinear-function-not-reproduced", "detail": f"at {worst[0]}: {worst[1]!r} vs {worst[2]!r}"})
+                        continue
+                    for i in range(cells):      # every cell of the axis has been touched once this loop is through
+                        pt = [x0[k] + 0.43 * ext[k] for k in range(dim)]
+                        pt[ax] = x0[ax] + (i + 0.5) * e / cells
+                        cache(*pt)
+                    inner = sorted({round(cl[ax], 5) for cl in f.calls if x0[ax] - 1e-4 <= cl[ax] <= x0[ax] + e + 1e-4})
+                    want = [round(x0[ax] + i * e / cells, 5) for i in range(cells + 1)]
+                    if len(inner) != len(want) or any(abs(a - b) > 2e-5 for a, b in zip(inner, want)):
+                        out.append({"sig": f"{tag}:sampling-nodes-differ", "detail": f"nodes along the axis {inner}, spec lattice of {cells} cell(s) {want}"})
+                except Exception as ex:       # noqa: BLE001
+                    out.append({"sig": f"{tag}:raised-{type(ex).__name__}-inside-the-area", "detail": repr(ex)[:200]})
+    return out
+
+
 CFG = """SPECIFICATION Spec
 CONSTANTS
   Dim = {dim}
@@ -222,6 +266,9 @@ def run(v):
                     v.violation(x["sig"], x["detail"], dict(r, dim=dim, n=n, poly=poly))
         v.add_cases(len(full), keys=[f"{dim}{n}{poly}" + json.dumps(r["h"]) for r in full])
         v.sample({"dim": dim, "cells_per_axis": n, "poly": POLYS[poly - 1], "history": [{k: x for k, x in e.items() if k != "asks"} for e in full[len(full) // 2]["h"]]})
+    for x in lattice(tab["lattice"]):
+        v.violation(x["sig"], x["detail"], None)
+    v.add_cases(6 * len(tab["lattice"]), keys=[f"lattice{d}{a}{json.dumps(c, sort_keys=True)}" for d in (1, 2, 3) for a in range(d) for c in tab["lattice"]])
     for dim, n in ((1, 5), (2, 3), (3, 2)):
         for x in identities(dim, n):
             v.violation(x["sig"], x["detail"], None)
